@@ -123,6 +123,7 @@ structure RpcDesc where
   rpc : String
   request : String              -- request message name
   fields : List String          -- proto field names of the request message
+  repeated : List String        -- those of them declared `repeated`
   deriving DecidableEq, Repr
 
 /-- number of `[placeholders]` in a cobra `Use` string -/
@@ -133,8 +134,14 @@ def lastOnly (flags : List Bool) : Bool :=
   | [] => true
   | _ :: rest => rest.all (· == false)
 
+/-- positional arguments, flagged varargs or not -/
+def CliCmd.args (c : CliCmd) : List (String × Bool) := c.positional.zip c.varargs
+
 /-- one command resolves: its rpc exists, every positional field exists in the request
-    message, placeholders match, varargs/optional only in last position and not both -/
+    message, placeholders match, varargs/optional only in last position and not both; a
+    `repeated` field is bound positionally only as varargs (autocli gives a positional
+    non-varargs argument exactly ONE value, so any other number of elements could not be
+    sent; unbound repeated fields become repeatable flags) -/
 def CliCmd.resolves (c : CliCmd) (rpcs : List RpcDesc) : Bool :=
   match rpcs.find? (fun r => r.service == c.service && r.rpc == c.rpc) with
   | none => false
@@ -145,6 +152,7 @@ def CliCmd.resolves (c : CliCmd) (rpcs : List RpcDesc) : Bool :=
      && c.varargs.length == c.positional.length && c.optional.length == c.positional.length
      && lastOnly c.varargs && lastOnly c.optional
      && !((c.varargs.getLast?.getD false) && (c.optional.getLast?.getD false))
-     && c.positional.eraseDups.length == c.positional.length)
+     && c.positional.eraseDups.length == c.positional.length
+     && c.args.all (fun a => a.2 || !r.repeated.contains a.1))
 
 end Fundraising.Tables
